@@ -62,6 +62,15 @@ class ProdCase:
                 'queries': self.queries}
 
 
+def has_unanchored(p) -> bool:
+    k = p[0]
+    if k == 'interval':
+        return p[1] is None
+    subs = p[2] if k == 'group' else [p[3]] if k == 'offset' else [p[5]] if k in ('earliest', 'latest') else \
+        [p[4]] if k == 'jitter' else []
+    return any(has_unanchored(x) for x in subs)
+
+
 def spec_from_json(x):
     if isinstance(x, list):
         if x and isinstance(x[0], str):
@@ -78,11 +87,25 @@ def run_case_impl(case: ProdCase, plan) -> None:
         for pid, sp in case.specs.items():
             case.defs[pid] = impl.define(pid, sp)
 
+        import time as _t
+        t_start = _t.time()
+        dead: set[int] = set()
+
         def ask(pid: int, dt: int) -> str:
             if case.defs.get(pid) != 'ok':
                 return 'err undefined'
-            case.anchor.setdefault(pid, dt)
+            if _t.time() - t_start > case.meta.get('budget_s', 8.0):
+                case.meta['budget_exhausted'] = True
+                return 'err budget'
+            if pid in dead:
+                return 'err dead'
             r = impl.next(pid, dt)
+            if r.startswith('ok'):
+                case.anchor.setdefault(pid, dt)
+            elif pid not in case.anchor and has_unanchored(case.specs[pid]):
+                # the first query failed: which `interval(None, ..)` nodes were anchored by it is an
+                # implementation detail; do not query this object again
+                dead.add(pid)
             if r == 'err DIVERGED' and not impl.risky.get(pid):
                 # a bounded but very expensive search (e.g. an unsatisfiable group filter: up to 99 999 member
                 # queries) was cut off by the watchdog: inconclusive, not compared with the model
@@ -142,6 +165,9 @@ def chain_plan(refs: list[int], steps: int, boundary: bool = True):
 
 
 # ------------------------------------------------------------------------------------------------ profiles
+INEXACT_STEPS = [100_000_000, 300_000_000, 1_100_000_000, 90_100_000_000, 700_000_000, 2_600_000_000]
+
+
 def make_case(pid: str, seed: int, tier: str) -> ProdCase:
     rnd = random.Random(seed)
     zc = pick_zone(rnd, tier)
@@ -149,6 +175,26 @@ def make_case(pid: str, seed: int, tier: str) -> ProdCase:
     refs = ref_instants(rnd, zc, 3)
     ref0 = refs[0]
     steps = 5
+    case.meta['probes'] = []
+    if pid in ('C04', 'C05', 'C06', 'C13') and zc.trans and rnd.random() < 0.6:
+        # directed: a dense grid of reference instants (15 min apart, +-1 ns) around one clock change
+        t, a, b = rnd.choice(zc.trans)
+        case.meta['grid'] = [t * NS_S + k * 15 * NS_MIN + e for k in range(-14, 15) for e in (0,)] + \
+                            [t * NS_S + e for e in (-1, 1)]
+    if pid == 'C04' and rnd.random() < 0.25:
+        # amounts that are not binary fractions of a second (0.1 s, 0.3 s ...): the float arithmetic of the code
+        # may be off by a nanosecond (known finding F15), so only the property oracle judges these cases;
+        # every query goes to a FRESH object, exactly on an occurrence far from the anchor
+        case.meta['oracle_only'] = True
+        step = rnd.choice(INEXACT_STEPS)
+        start = (ref0 // NS_S) * NS_S
+        base = ('interval', start, step, None)
+        spec = base if rnd.random() < 0.6 else ('offset', rnd.choice([-1, 1]) * rnd.choice(INEXACT_STEPS), None, base)
+        for k in range(1, 41):
+            case.specs[k] = spec
+            case.meta['probes'].append((k, start + k * step + rnd.choice([0, 0, 0, -1, 1])))
+        case.meta.update({'refs': [], 'steps': 0})
+        return case
     if pid == 'C04':
         for i in range(2):
             case.specs[i + 1] = gen_producer(rnd, zc, ref0, rnd.randint(1, 4))
@@ -175,7 +221,7 @@ def make_case(pid: str, seed: int, tier: str) -> ProdCase:
         refs = refs[:1]
     else:
         case.specs[1] = gen_producer(rnd, zc, ref0, rnd.randint(1, 3))
-    case.meta = {'refs': refs, 'steps': steps}
+    case.meta.update({'refs': refs, 'steps': steps})
     return case
 
 
@@ -199,6 +245,34 @@ def wrap_op(rnd: random.Random, zc: ZoneCtx, k: str, base, narrow: bool = False)
     width = max(width, 1000)
     lo = rnd.choice([0, 0, -width // 2, -width, width // 3, -1])
     return ('jitter', make_exact(lo), make_exact(lo + width), None, base)
+
+
+def make_sweep_case(zone: str, seed: int) -> ProdCase:
+    """C06 sweep: one zone, two of its clock changes, wall clock times at the start / inside / at the end of the
+    affected interval, all 4 x 4 policies, reference instants before, inside and after the change"""
+    rnd = random.Random(seed)
+    zc = ZoneCtx(zone)
+    case = ProdCase(zone, 0)
+    case.meta = {'refs': [], 'steps': 0, 'probes': [], 'budget_s': 30.0}
+    if not zc.trans:
+        case.specs[1] = ('time', 12 * NS_HOUR, 'after', 'earlier', None)
+        case.meta['probes'] = [(1, 1_700_000_000 * NS_S)]
+        return case
+    pid = 0
+    for (t, a, b) in rnd.sample(zc.trans, min(2, len(zc.trans))):
+        lo, hi = (t + a, t + b) if b > a else (t + b, t + a)       # affected local interval [lo, hi)
+        tods = {(x % 86400) * NS_S + e for x, e in ((lo, 0), (hi, 0), ((lo + hi) // 2, 0), (hi - 60, 0), (lo - 60, 0),
+                                                     (lo, 1), (hi, -1) if False else (hi - 1, 999_999_999))}
+        for tod in sorted(tods):
+            for sk in SKIPPED:
+                for rp in REPEATED:
+                    if (b > a and rp != 'earlier' and rnd.random() < 0.7) or (b < a and sk != 'after' and rnd.random() < 0.7):
+                        continue        # the policy of the other direction does not matter for this change
+                    pid += 1
+                    case.specs[pid] = ('time', tod % NS_DAY, sk, rp, None)
+                    for ref in (t - 30 * 3600, t - 3 * 3600, t - 1, t, t + abs(b - a) // 2, t + 3 * 3600):
+                        case.meta['probes'].append((pid, ref * NS_S))
+    return case
 
 
 class ProdProp:
@@ -247,7 +321,7 @@ class ProdProp:
                 single = ProdCase(case.tz, case.seed)
                 single.specs = {pid: case.specs[pid]}
                 # keep the anchoring first query of this producer
-                single.queries = ([(pid, case.anchor[pid])] if case.anchor.get(pid, dt) != dt else []) + [(pid, dt)]
+                single.queries = ([(pid, case.anchor[pid])] if case.anchor.get(pid, dt) != dt and has_unanchored(case.specs[pid]) else []) + [(pid, dt)]
                 run.findings.append(Finding('oracle', msg, single.to_json(),
                                             self.known_signature(case, pid, dt, res, msg)))
         for sp in case.specs.values():
@@ -259,6 +333,9 @@ class ProdProp:
             zs.append(case.tz)
         run.sample({'zone': case.tz, 'trigger': prod_sx(next(iter(case.specs.values())))[:200],
                     'queries': [(dt, r) for (_, dt), r in list(zip(case.queries, case.impl))[:4]]})
+        if case.meta.get('oracle_only'):
+            run.stats['oracle_only_cases'] = run.stats.get('oracle_only_cases', 0) + 1
+            return
         mdefs, mres = model_answers(case)
         run.traces_validated += 1
         for r in getattr(case, 'regular', []):
@@ -296,12 +373,34 @@ class ProdProp:
     def cases(self, run: Run):
         n = {'quick': 60, 'thorough': 3000}[run.tier]
         base = run.seed * 1_000_003 + int(self.pid[1:]) * 7919
+        if self.pid == 'C06':
+            from tz import SHAPE_ZONES, zones
+            nz = len(zones()) if run.tier == 'thorough' else len(SHAPE_ZONES)
+            for i in range(nz):
+                yield -(1 + i + (run.seed % 1000) * 1000)      # sweep cases: negative seeds select the zone
         for i in range(n):
             yield base + i
 
     def build(self, seed: int, tier: str) -> ProdCase:
-        case = make_case(self.pid, seed, tier)
-        run_case_impl(case, chain_plan(case.meta['refs'], case.meta['steps']))
+        if self.pid == 'C06' and seed < 0:
+            from tz import SHAPE_ZONES, zones
+            zl = zones() if tier == 'thorough' else SHAPE_ZONES
+            case = make_sweep_case(zl[((-seed - 1) % 1000) % len(zl)], -seed)
+        else:
+            case = make_case(self.pid, seed, tier)
+        chain = chain_plan(case.meta['refs'], case.meta['steps'])
+
+        def plan(ask, c: ProdCase) -> None:
+            for pid, dt in c.meta.get('probes', []):
+                ask(pid, dt)
+            if c.meta.get('steps'):
+                chain(ask, c)
+            for dt in c.meta.get('grid', []):
+                for pid in c.specs:
+                    r = ask(pid, dt)
+                    if not r.startswith('ok'):
+                        break
+        run_case_impl(case, plan)
         return case
 
     def run_T(self, run: Run) -> None:
